@@ -51,13 +51,17 @@ type SortableMutexes []SortableMutex
 func (s SortableMutexes) Lock() {
 	slices.SortFunc(s, func(a, b SortableMutex) int { return cmp.Compare(a.Seq(), b.Seq()) })
 	for _, mu := range s {
+		verifLock("acquire", mu.Seq())
 		mu.Lock()
+		verifLock("acquired", mu.Seq())
 	}
+	verifLock("done", 0)
 }
 
 // Unlock unlocks the sorted set of mutexes locked by a prior call to Lock().
 func (s SortableMutexes) Unlock() {
 	for _, mu := range s {
+		verifLock("unlock", mu.Seq())
 		mu.Unlock()
 	}
 }
